@@ -43,7 +43,7 @@ VARIABLE i
 RECURSIVE ToCond(_)
 ToCond(id) == LET n == Conds[id] IN
   [k |-> n.k, a |-> n.a, cs |-> {ToCond(n.cs[j]) : j \in DOMAIN n.cs}]
-CondTab == TLCEval([id \in DOMAIN Conds |-> ToCond(id)])
+CondTab == [id \in DOMAIN Conds |-> ToCond(id)]     \* lazy: only the entries used are built
 
 VarOf(jv) == [b |-> [j \in DOMAIN jv.b |-> Bnd(jv.b[j].v, CondTab[jv.b[j].c])], name |-> jv.name]
 StateOf(js) ==
@@ -51,7 +51,7 @@ StateOf(js) ==
               VarOf(js.loc[CHOOSE j \in DOMAIN js.loc : js.loc[j].n = n])],
    cond |-> CondTab[js.cond],
    lwbc |-> ToSet(js.lwbc)]
-StateTab == TLCEval([id \in DOMAIN States |-> StateOf(States[id])])
+StateTab == [id \in DOMAIN States |-> StateOf(States[id])]
 
 Pre(S) == ExplicitImpliesBlock(S) /\ DistinctValues(S)
 
@@ -123,19 +123,6 @@ TNext == /\ i <= Len(Cases)
          /\ i' = i + 1
          /\ UNCHANGED vars
          /\ (i' > Len(Cases) => TLCSet(1, TRUE))
-
-OkX == i <= Len(Cases) =>
-   CASE IOEnv.MODE = "a" -> Cases[i].kind = "store"
-     [] IOEnv.MODE = "b" -> StateTab[Cases[i].s] # StateTab[Cases[i].r]
-     [] IOEnv.MODE = "c" -> StateTab[Cases[i].r] = StoreLocal(StateTab[Cases[i].s], Cases[i].n, VarOf(Cases[i].var))
-     [] IOEnv.MODE = "d" -> ExplicitImpliesBlock(StateTab[Cases[i].s])
-     [] IOEnv.MODE = "e" -> Notes(Cases[i]) = {}
-     [] IOEnv.MODE = "f" -> Fails(Cases[i]) = {}
-     [] IOEnv.MODE = "g" -> LET c == Cases[i] S == StateTab[c.s] R == StateTab[c.r] IN
-              ((IF R # StoreLocal(S, c.n, VarOf(c.var)) THEN {"structure"} ELSE {})
-              \cup (IF ExplicitImpliesBlock(S) /\ ~ExplicitImpliesBlock(R) THEN {"aux"} ELSE {})) = {}
-     [] IOEnv.MODE = "h" -> LET c == Cases[i] S == StateTab[c.s] R == StateTab[c.r] IN
-              ExplicitImpliesBlock(S) /\ ExplicitImpliesBlock(R)
 
 Ok == /\ (i = 1 => (WellFormed \/ PrintT(<<"MACH", ToJson([what |-> "trace file not well-formed"])>>)))
       /\ i <= Len(Cases) =>
